@@ -8,8 +8,16 @@
 EXTENDS Template, IOUtils
 
 VARIABLES segs, src
-MaxSegs == IF IOEnv.VERIF_DEPTH = "3" THEN 3 ELSE 2
-Init == TLCSet(61, Alphabet) /\ segs = <<>> /\ src = ""
+\* VERIF_DEPTH: "2" (quick), "3" (thorough), "4c" (thorough, second run): up to 4 segments over the core of the
+\* alphabet -- the segment kinds that interact with their neighbours (delimiters in literals, trim markers, comments,
+\* block openers and the two unbalanced forms)
+MaxSegs == IF IOEnv.VERIF_DEPTH = "4c" THEN 4 ELSE IF IOEnv.VERIF_DEPTH = "3" THEN 3 ELSE 2
+Core == {a \in Alphabet :
+           \/ a.k \in {"quoted", "comment", "trim", "unclosed", "strayend"}
+           \/ a.k = "lit" /\ a.t # "score="
+           \/ a.k = "field" /\ a.f \in {"Vector", "EValue"}
+           \/ a.k \in {"if", "with", "range"} /\ a.f = "Vector"}
+Init == TLCSet(61, IF IOEnv.VERIF_DEPTH = "4c" THEN Core ELSE Alphabet) /\ segs = <<>> /\ src = ""
 Next == /\ Len(segs) < MaxSegs
         /\ \E a \in TLCGet(61) : segs' = Append(segs, a) /\ src' = src \o Source(a)
 Spec == Init /\ [][Next]_<<segs, src>>
